@@ -115,7 +115,10 @@ func (c *Ctx) orphanMatching() {
 	if fi == nil {
 		return
 	}
-	fn, an := c.Analysis(fi)
+	fn := c.E.FnOf(fi)
+	fn.KeepDead = true // (a predicate helper's locals are dead where the set is appended: what was learned through them is kept)
+	an := fn.Analyze(nil)
+	fn.KeepDead = false
 	info := fi.Pkg.TypesInfo
 	pods := paramsOfType(fi, "k8s.io/api/core/v1", "Pod")
 	var app *ast.AssignStmt
@@ -147,7 +150,13 @@ func (c *Ctx) orphanMatching() {
 	st := an.StateBefore(app)
 	good := false
 	why := "the set is appended without the pod's labels having matched a selector"
-	for _, call := range callsIn(loopBody(loop), false) {
+	// (the test may sit in a predicate helper the engine expands into the loop)
+	var matchCalls []*ast.CallExpr
+	matchCalls = append(matchCalls, callsIn(loopBody(loop), false)...)
+	for _, h := range fn.Expanded() {
+		matchCalls = append(matchCalls, callsIn(h.Decl.Body, false)...)
+	}
+	for _, call := range matchCalls {
 		sel, ok := ast.Unparen(call.Fun).(*ast.SelectorExpr)
 		if !ok || sel.Sel.Name != "Matches" || len(call.Args) != 1 {
 			continue
@@ -156,17 +165,19 @@ func (c *Ctx) orphanMatching() {
 			continue
 		}
 		// matched against the pod's labels
-		if want := c.TryWantTerm(fn, call.Pos(), "$1.Labels", pods[0]); want == nil || fn.Term(call.Args[0]).Key() != want.Key() {
+		if want := c.TryWantTerm(fn, fi.Decl.Body.Lbrace+1, "$1.Labels", pods[0]); want == nil {
+			continue
+		} else if sameL, _ := an.StateAtExpr(call).Implies(gf.FEq(fn.Term(call.Args[0]), want)); fn.Term(call.Args[0]).Key() != want.Key() && !sameL {
 			why = "the selector is not matched against the pod's labels"
 			continue
 		}
 		// the selector: the conversion of the appended set's whole spec.selector
-		src, _ := reachingDefRHS(fi, info, sel.X, call).(*ast.CallExpr)
+		src, _ := reachingDefRHS(c.hostOf(fi, call), info, sel.X, call).(*ast.CallExpr)
 		if src == nil || calleeName(info, src) != "k8s.io/apimachinery/pkg/apis/meta/v1.LabelSelectorAsSelector" || len(src.Args) != 1 {
 			why = "the selector matched is not LabelSelectorAsSelector(<set>.Spec.Selector): match expressions (or the whole selector) are ignored when deciding which sets an orphan wakes up"
 			continue
 		}
-		want := c.TryWantTerm(fn, src.Pos(), "$1.Spec.Selector", appended)
+		want := c.TryWantTerm(fn, app.Pos(), "$1.Spec.Selector", appended)
 		if same, _ := an.StateAtExpr(src).Implies(gf.FEq(fn.Term(src.Args[0]), want)); want != nil && (fn.Term(src.Args[0]).Key() == want.Key() || same) {
 			good = true
 		} else {
@@ -451,12 +462,21 @@ func (c *Ctx) enqueueClasses() {
 		classes := map[string]int{}
 		for i, e := range h.enqueues {
 			arg, _ := ast.Unparen(e.Args[0]).(*ast.Ident)
+			// `for i := range xs { enqueue(xs[i]) }`: the cell of the loop stands for the value variable
+			var cellOf *ast.Ident
+			if ix, isIx := ast.Unparen(e.Args[0]).(*ast.IndexExpr); isIx && arg == nil {
+				if xs, ok := ast.Unparen(ix.X).(*ast.Ident); ok {
+					if k, ok := ast.Unparen(ix.Index).(*ast.Ident); ok {
+						cellOf, arg = xs, k
+					}
+				}
+			}
 			if arg == nil {
 				c.Bad("C16.2-enqueue-class", fmt.Sprintf("%s: enqueue[%d]", fi.Obj.Name(), i), e.Pos(), "enqueue argument is not a variable")
 				continue
 			}
 			obj := info.ObjectOf(arg)
-			ename := fmt.Sprintf("%s: enqueue(%s)[%d]", fi.Obj.Name(), arg.Name, i)
+			ename := fmt.Sprintf("%s: enqueue(%s)[%d]", fi.Obj.Name(), types.ExprString(e.Args[0]), i)
 			st := h.an.StateAtExpr(e)
 			switch {
 			case h.resolved[obj] != nil:
@@ -527,7 +547,10 @@ func (c *Ctx) enqueueClasses() {
 							ranged = mapped
 						}
 						if ranged != nil && h.matched[ranged] {
-							if v, ok := loop.Value.(*ast.Ident); ok && info.ObjectOf(v) == obj {
+							if v, ok := loop.Value.(*ast.Ident); ok && cellOf == nil && info.ObjectOf(v) == obj {
+								okLoop = true
+							}
+							if k, ok := loop.Key.(*ast.Ident); ok && cellOf != nil && info.ObjectOf(k) == obj && info.ObjectOf(cellOf) == info.ObjectOf(id) {
 								okLoop = true
 							}
 						}
